@@ -244,6 +244,11 @@ def enumerate_steps(rs, inputs):
                 for (n, s) in sub:
                     subs[n] = real_value(rs, s, inputs, kind, newsize)
                 steps.append(("subs_real:%s:%s" % (kind, "+".join(n for n, _ in sub)), {"op": "subs", "subs": subs}))
+                if r >= 2 and kind == "tensor":
+                    # the same substitution written with the pairs in the opposite order (explicit Subs), and as a chain of
+                    # single substitutions built lazily and fused (C04: f(a)(b) == f(a, b); the order of pairs is immaterial)
+                    steps.append(("subs_real:reversed_pairs:%s" % "+".join(n for n, _ in sub), {"op": "subs", "subs": subs, "how": "reversed"}))
+                    steps.append(("subs_real:chained_lazy:%s" % "+".join(n for n, _ in sub), {"op": "subs", "subs": subs, "how": "chained"}))
     for (n, s) in reals:
         if s == ():
             steps.append(("subs_real:num_real:" + n, {"op": "subs", "subs": {n: real_value(rs, s, inputs, "num_real")}}))
